@@ -69,13 +69,15 @@ Record proc := {
   chunk : Z;               (* sequence_number_chunksize *)
   limit : Z;               (* sequence_number_chunksize_limit *)
   wpers : bool;            (* replay_window_persisted *)
-  uc : ctx                 (* recipient_replay_window (None = not initialised), its size, echo_recovery *)
+  uc : ctx;                (* recipient_replay_window (None = not initialised), its size, echo_recovery *)
+  pend : option (Z * bool) (* the RequestIdentifiers the last unprotect handed on: request number, can_reuse_nonce *)
 }.
-Definition set_ssn (p : proc) (v : Z) : proc := {| ssn := v; persisted := persisted p; chunk := chunk p; limit := limit p; wpers := wpers p; uc := uc p |}.
-Definition set_persisted (p : proc) (v : Z) : proc := {| ssn := ssn p; persisted := v; chunk := chunk p; limit := limit p; wpers := wpers p; uc := uc p |}.
-Definition set_chunk (p : proc) (v : Z) : proc := {| ssn := ssn p; persisted := persisted p; chunk := v; limit := limit p; wpers := wpers p; uc := uc p |}.
-Definition set_wpers (p : proc) (v : bool) : proc := {| ssn := ssn p; persisted := persisted p; chunk := chunk p; limit := limit p; wpers := v; uc := uc p |}.
-Definition set_uc (p : proc) (c : ctx) : proc := {| ssn := ssn p; persisted := persisted p; chunk := chunk p; limit := limit p; wpers := wpers p; uc := c |}.
+Definition set_ssn (p : proc) (v : Z) : proc := {| ssn := v; persisted := persisted p; chunk := chunk p; limit := limit p; wpers := wpers p; uc := uc p; pend := pend p |}.
+Definition set_persisted (p : proc) (v : Z) : proc := {| ssn := ssn p; persisted := v; chunk := chunk p; limit := limit p; wpers := wpers p; uc := uc p; pend := pend p |}.
+Definition set_chunk (p : proc) (v : Z) : proc := {| ssn := ssn p; persisted := persisted p; chunk := v; limit := limit p; wpers := wpers p; uc := uc p; pend := pend p |}.
+Definition set_wpers (p : proc) (v : bool) : proc := {| ssn := ssn p; persisted := persisted p; chunk := chunk p; limit := limit p; wpers := v; uc := uc p; pend := pend p |}.
+Definition set_uc (p : proc) (c : ctx) : proc := {| ssn := ssn p; persisted := persisted p; chunk := chunk p; limit := limit p; wpers := wpers p; uc := c; pend := pend p |}.
+Definition set_pend (p : proc) (v : option (Z * bool)) : proc := {| ssn := ssn p; persisted := persisted p; chunk := chunk p; limit := limit p; wpers := wpers p; uc := uc p; pend := v |}.
 
 (* ReplayWindow.persist *)
 Definition persist (w : option rw) : option (Z * Z) :=
@@ -139,6 +141,47 @@ Definition _destroy (p : proc) (d : disk) (armed : option Z) : disk * bool :=
   let p := set_persisted p (ssn p) in
   run_effects (store_effects p ++ [fs_unlink_lock]) armed d.
 
+(* ---- the request identifiers unprotect hands on (oscore.py:1300-1305): can_reuse_nonce = "replay_error is None" at the time
+   they are built, i.e. the window is initialised and the number valid in it.  They leave unprotect with its return value
+   (Accept) or inside ReplayErrorWithEcho (RejectEcho); nothing is handed on with the other errors. *)
+Definition can_reuse_nonce (c : ctx) (r : preq) : bool :=
+  match window c with
+  | Some w => match is_valid w (seqno r) with Ok b => b | Raise _ => false end
+  | None => false
+  end.
+Definition handed_on (o : outcome) : bool := match o with Accept | RejectEcho => true | _ => false end.
+Definition pend_of (c : ctx) (r : preq) (o : outcome) : option (Z * bool) :=
+  if handed_on o then Some (seqno r, can_reuse_nonce c r) else None.
+
+(* ---- _store raising OSError (ENOSPC, EIO, ...) when [k] of its effects have been performed (k = 0..3; the rename is never
+   reached): the process survives with the attributes it had set before calling _store.  Outside the property's quantifier
+   (crash points), modelled to show what the code does then (known finding, notes/C13.md round 5). *)
+Definition OSError : exn := OtherError 28.
+Definition _store_fails (p : proc) (d : disk) (k : Z) : disk :=
+  apply_effects (firstn (Z.to_nat (Z.min (Z.max k 0) 3)) (store_effects p)) d.
+Definition post_seqnoincrease_fails (p : proc) (d : disk) (k : Z) : proc * disk * res unit :=
+  if ssn p >? persisted p then
+    let p := set_persisted p (persisted p + chunk p) in
+    let p := set_chunk p (Z.min (chunk p * 2) (limit p)) in
+    (p, _store_fails p d k, Exn OSError)
+  else (p, d, Val tt).
+Definition new_sequence_number_fails (p : proc) (d : disk) (k : Z) : proc * disk * res Z :=
+  let retval := ssn p in
+  if retval >=? MAX_SEQNO then (p, d, Exn ContextUnavailable)
+  else
+    let p := set_ssn p (ssn p + 1) in
+    match post_seqnoincrease_fails p d k with
+    | (p, d, Val _) => (p, d, Val retval)
+    | (p, d, Exn e) => (p, d, Exn e)
+    | (p, d, Died) => (p, d, Died)
+    end.
+Definition unprotect_fails (p : proc) (d : disk) (k : Z) (r : preq) : proc * disk * res outcome :=
+  let '(c', o) := unprotect_request (uc p) r in
+  let p1 := set_uc p c' in
+  if strikes (uc p) o && wpers p1 then
+    let p2 := set_wpers p1 false in (p2, _store_fails p2 d k, Exn OSError)
+  else (p1, d, Val o).
+
 (* what _load makes of the "received" member *)
 Definition load_window (size : Z) (d : disk) : option rw :=
   match d_seq d with
@@ -158,7 +201,7 @@ Definition dbound (d : disk) : Z := match d_seq d with Some f => sf_next f | Non
 (* __init__ + _load *)
 Definition load (size start lim echo : Z) (d : disk) : proc :=
   {| ssn := dbound d; persisted := dbound d; chunk := start; limit := lim; wpers := load_wpers d;
-     uc := {| size := size; window := load_window size d; echo_recovery := Some echo |} |}.
+     uc := {| size := size; window := load_window size d; echo_recovery := Some echo |}; pend := None |}.
 
 (* ------------------------------------------------------------------ histories *)
 Inductive event :=
@@ -167,12 +210,17 @@ Inductive event :=
 | Unprotect (r : preq) (crash : option Z)
 | CleanStop (crash : option Z)            (* _destroy (as __del__ runs it) *)
 | Kill                                    (* the process dies between two operations *)
-| Reload (start lim echo : Z).            (* FilesystemSecurityContext(basedir, start, lim); echo = this lifetime's echo_recovery *)
+| Reload (start lim echo : Z)             (* FilesystemSecurityContext(basedir, start, lim); echo = this lifetime's echo_recovery *)
+| Respond (crash : option Z)              (* protect a response with the identifiers the last unprotect handed on (4.01 of ReplayErrorWithEcho
+                                             or an ordinary response); without identifiers: an ordinary protect *)
+| ProtectFails (k : Z)                    (* protect() during which _store raises OSError after k effects *)
+| UnprotectFails (r : preq) (k : Z).      (* unprotect during which _store (from the strike-out callback) raises OSError after k effects *)
 
 Inductive seqend := SeqDone | SeqExn (e : exn) | SeqDied.
 Inductive output :=
 | OIssued (n : Z) | OSeq (l : list Z) (e : seqend) | OExn (e : exn) | OUnprot (o : outcome)
-| OStopped | ODied | ONoProc | OBusy | OLoaded (next : Z) (initialised : bool).
+| OStopped | ODied | ONoProc | OBusy | OLoaded (next : Z) (initialised : bool)
+| OReused (n : Z).                        (* a response encrypted under the nonce of request n (no own Partial IV) *)
 
 Record world := { w_size : Z; w_proc : option proc; w_disk : disk }.
 Definition mkw (size : Z) (p : option proc) (d : disk) : world := {| w_size := size; w_proc := p; w_disk := d |}.
@@ -211,8 +259,30 @@ Definition step (w : world) (ev : event) : world * output :=
       end
   | Some p, Unprotect r a =>
       match unprotect p (w_disk w) a r with
-      | (p', d', Val o) => (mkw sz (Some p') d', OUnprot o)
+      | (p', d', Val o) => (mkw sz (Some (set_pend p' (pend_of (uc p) r o))) d', OUnprot o)
+      | (p', d', Exn e) => (mkw sz (Some (set_pend p' None)) d', OExn e)
+      | (p', d', Died) => (mkw sz None d', ODied)
+      end
+  | Some p, Respond a =>
+      match pend p with
+      | Some (n, true) => (mkw sz (Some (set_pend p (Some (n, false)))) (w_disk w), OReused n)   (* get_reusable_kid_and_piv *)
+      | _ =>
+          match new_sequence_number p (w_disk w) a with
+          | (p', d', Val v) => (mkw sz (Some p') d', OIssued v)
+          | (p', d', Exn e) => (mkw sz (Some p') d', OExn e)
+          | (p', d', Died) => (mkw sz None d', ODied)
+          end
+      end
+  | Some p, ProtectFails k =>
+      match new_sequence_number_fails p (w_disk w) k with
+      | (p', d', Val v) => (mkw sz (Some p') d', OIssued v)
       | (p', d', Exn e) => (mkw sz (Some p') d', OExn e)
+      | (p', d', Died) => (mkw sz None d', ODied)
+      end
+  | Some p, UnprotectFails r k =>
+      match unprotect_fails p (w_disk w) k r with
+      | (p', d', Val o) => (mkw sz (Some (set_pend p' (pend_of (uc p) r o))) d', OUnprot o)
+      | (p', d', Exn e) => (mkw sz (Some (set_pend p' None)) d', OExn e)
       | (p', d', Died) => (mkw sz None d', ODied)
       end
   | Some p, CleanStop a =>
@@ -234,9 +304,14 @@ Definition issued (os : list output) : list Z := flat_map issued_of os.
 Fixpoint accepted (evs : list event) (os : list output) : list Z :=
   match evs, os with
   | Unprotect r _ :: evs', OUnprot Accept :: os' => seqno r :: accepted evs' os'
+  | UnprotectFails r _ :: evs', OUnprot Accept :: os' => seqno r :: accepted evs' os'
   | _ :: evs', _ :: os' => accepted evs' os'
   | _, _ => []
   end.
+
+(* request numbers whose nonce was used again for a response *)
+Definition reused_of (o : output) : list Z := match o with OReused n => [n] | _ => [] end.
+Definition reused (os : list output) : list Z := flat_map reused_of os.
 
 (* ------------------------------------------------------------------ observation for the correspondence run *)
 (* compact rendering of an output (a long Seq is summarised as first number, count, consecutive?) *)
@@ -244,21 +319,22 @@ Fixpoint consecutive (first : Z) (l : list Z) : bool :=
   match l with [] => true | x :: r => (x =? first) && consecutive (first + 1) r end.
 Inductive obs :=
 | BIssued (n : Z) | BSeq (first count : Z) (consec : bool) (e : seqend) | BExn (e : exn) | BUnprot (o : outcome)
-| BStopped | BDied | BNoProc | BBusy | BLoaded (next : Z) (initialised : bool).
+| BStopped | BDied | BNoProc | BBusy | BLoaded (next : Z) (initialised : bool) | BReused (n : Z).
 Definition observe (o : output) : obs :=
   match o with
   | OIssued n => BIssued n
   | OSeq l e => BSeq (hd (-1) l) (Z.of_nat (length l)) (consecutive (hd (-1) l) l) e
   | OExn e => BExn e | OUnprot o => BUnprot o | OStopped => BStopped | ODied => BDied
-  | ONoProc => BNoProc | OBusy => BBusy | OLoaded n i => BLoaded n i
+  | ONoProc => BNoProc | OBusy => BBusy | OLoaded n i => BLoaded n i | OReused n => BReused n
   end.
 (* per event: observation, sequence.json afterwards, number of temporary files afterwards *)
-Fixpoint trace (w : world) (evs : list event) : world * list (obs * option seqfile * Z) :=
+Definition pend_obs (w : world) : option (Z * bool) := match w_proc w with Some p => pend p | None => None end.
+Fixpoint trace (w : world) (evs : list event) : world * list (obs * option seqfile * Z * option (Z * bool)) :=
   match evs with
   | [] => (w, [])
   | e :: r => let '(w1, o) := step w e in
               let '(w2, t) := trace w1 r in
-              (w2, (observe o, d_seq (w_disk w1), Z.of_nat (length (d_temps (w_disk w1)))) :: t)
+              (w2, (observe o, d_seq (w_disk w1), Z.of_nat (length (d_temps (w_disk w1))), pend_obs w1) :: t)
   end.
 Definition proc_obs (p : proc) : Z * Z * Z * bool * option (Z * Z) :=
   (ssn p, persisted p, chunk p, wpers p, persist (window (uc p))).
